@@ -107,7 +107,7 @@ impl SubCheckT for LruDirect {
     const NAME: &'static str = "lru";
     const RULE: &'static str = "rsdd::util::lru::Lru with 2^0..2^4 initial slots driven by insert/get over <=24 keys whose fixed hashes come from a tiny colliding set, against 'last value inserted per key': get returns nothing or exactly that value, never another key's value or a stale one, across collisions, overwrites and growth. Non-trivial: >=1 overwrite of an occupied slot, >=1 growth and >=1 hit (hook counters) - a cache that forgets everything does not count";
     fn cases(tier: Tier) -> u32 {
-        tier.pick(6000, 200_000)
+        tier.pick(20_000, 200_000)
     }
     fn strategy(_tier: Tier) -> BoxedStrategy<LruCase> {
         (
@@ -219,7 +219,7 @@ impl SubCheckT for BddDiff {
     const NAME: &'static str = "bdd_differential";
     const RULE: &'static str = "the same <=50-op BDD history on RobddBuilder<AllIteTable> and RobddBuilder<LruIteTable> with 1..16 slots (hook) or the default size, same random order: every pair of results is structurally isomorphic (simultaneous walk), both denote the oracle function, and the pointer-equality relation among all results is the same in both builders. Non-trivial: at least one overwrite happened in the lossy ITE cache (hook counter)";
     fn cases(tier: Tier) -> u32 {
-        tier.pick(2500, 80_000)
+        tier.pick(6000, 80_000)
     }
     fn strategy(_tier: Tier) -> BoxedStrategy<DiffCase> {
         (
@@ -357,7 +357,7 @@ impl SubCheckT for SddCaches {
     const NAME: &'static str = "sdd_caches";
     const RULE: &'static str = "compressing SDD builder, random vtree (<=6 variables), <=30 ops: each op is re-issued 1..4 steps later with the same arguments (now answered by app_cache / ite_cache) and must return the pointer recorded the first time; up to 4 sampled results are recomputed cold in a fresh builder that replays only their dependency cone and must be structurally isomorphic to the warm results. Non-trivial: >=3 repetitions and >=1 cold recomputation";
     fn cases(tier: Tier) -> u32 {
-        tier.pick(1500, 50_000)
+        tier.pick(3000, 50_000)
     }
     fn strategy(_tier: Tier) -> BoxedStrategy<SddCacheCase> {
         (
